@@ -43,6 +43,24 @@ def generate(tier, rng):
             lines.append("read c0 " + hx(part))
         lines += ["wdone c0", "wdone c0", "state"]
         cases.append(Case("c09-nohost-%d" % i, lines, {"opts": o, "nohost_close": close, "tags": ["nohost-close" if close else "nohost-keep"]}))
+    # auto_disconnect concerns invalid requests only: a valid keep-alive request that expects a 100 Continue gets it, sends
+    # its body, is answered, and the connection stays open
+    for i in range(16 if tier == "quick" else 300):
+        line, o = gen_sim.server_line(rng, {"policy": "sync", "resp": "fixed", "invh": 0, "autodisc": 1, "conth": 0, "filter": "all",
+                                            "chunkh": 0})
+        lines = [line, "accept"]
+        if o["flavour"] == "ssl":
+            lines.append("hs c0 ok")
+        framing = rng.choice(["cl", "chunked"])
+        hdrs = [gen_sim.HOST, (b"Expect", b"100-continue")]
+        if framing == "cl":
+            head = gen_sim.req(b"POST", b"/e", headers=hdrs + [(b"Content-Length", b"4")])
+            body = b"body"
+        else:
+            head = gen_sim.req(b"POST", b"/e", headers=hdrs + [(b"Transfer-Encoding", b"chunked")])
+            body = b"4\r\nbody\r\n0\r\n\r\n"
+        lines += ["read c0 " + hx(head), "wdone c0", "read c0 " + hx(body), "wdone c0", "wdone c0", "state"]
+        cases.append(Case("c09-expect-ad-%d" % i, lines, {"opts": o, "expect_autodisc": True, "tags": ["expect-autodisc"]}))
     return cases
 
 
@@ -94,6 +112,10 @@ def oracle(case, out):
                     "was left open")
         if wrote and not case.meta["nohost_close"] and shut:
             return "c0: a keep-alive HTTP/1.1 request without Host was answered (400) and the connection was closed"
+    if r is None and case.meta.get("expect_autodisc"):
+        if any(l.startswith("io shutdown c0") for l in out):
+            return ("c0: a valid keep-alive request with `Expect: 100-continue` was shut down by a server with auto_disconnect on "
+                    "(auto_disconnect concerns invalid requests only)")
     return r
 
 
